@@ -20,6 +20,7 @@ Added after the independent review (each closes a demonstrated gap):
 * a split keeps the time node (only the cycle is renumbered); parameters the loader recomputes are no longer dropped at any size: they
   are compared at the recomputed tolerance, and the ones C04 records as stale-at-write against a load made right after the write.
 """
+import json
 import os
 import random
 
@@ -858,8 +859,9 @@ def restart_source(rec, H, lay):
     """A completed run of the layout, made once per shard: its file, the states recorded at its writes, the digest of every group."""
     import h5py
 
-    if lay in H.sources:
-        return H.sources[lay]
+    key = json.dumps(lay)  # layouts arrive through JSON: the skipped-cycle entry is a list
+    if key in H.sources:
+        return H.sources[key]
     H.n += 1
     title = "source%d" % H.n
     aborted, writes = run_once(H, lay, None, title)
@@ -872,8 +874,8 @@ def restart_source(rec, H, lay):
     if aborted or names != sorted(gname(*k) for k in done):
         # (this is what the failure-free run of crash_case judges; a restart from such a file would say nothing)
         raise RuntimeError("source run for restarts did not complete as scheduled: %s" % names)
-    H.sources[lay] = (fname, {gname(c, n, lab): ob for (_i, c, n, lab, ob) in writes}, digests)
-    return H.sources[lay]
+    H.sources[key] = (fname, {gname(c, n, lab): ob for (_i, c, n, lab, ob) in writes}, digests)
+    return H.sources[key]
 
 
 def restart_case(rec, H, lay, start, point):
